@@ -94,6 +94,21 @@ func (fi *funcInfo) entryFacts() []Lin {
 		}
 		return false
 	}
+	for j, pj := range fn.Params {
+		if !isSliceLike(pj.Type()) {
+			continue
+		}
+		j := j
+		for _, k := range []int64{1, 2, 4} {
+			k := k
+			cands = append(cands, cand{
+				callee: fi.lenOf(pj).addK(-k),
+				caller: func(cfi *funcInfo, call *ssa.Call) (Lin, bool) {
+					return cfi.lenOf(call.Call.Args[j]).addK(-k), true
+				},
+			})
+		}
+	}
 	for i, pi := range fn.Params {
 		if _, _, isInt := isIntType(pi.Type()); isInt {
 			for j, pj := range fn.Params {
@@ -154,28 +169,34 @@ func (fi *funcInfo) entryFacts() []Lin {
 	return out
 }
 
-var resultFactCache = map[*ssa.Function][]func(fi *funcInfo, a string, call *ssa.Call) Lin{}
-var resultFactBusy = map[*ssa.Function]bool{}
+type resKey struct {
+	g   *ssa.Function
+	idx int
+}
+
+var resultFactCache = map[resKey][]func(fi *funcInfo, a string, call *ssa.Call) Lin{}
+var resultFactBusy = map[resKey]bool{}
 
 // resultFacts: facts about the first (integer) result of a module function that hold at every
 // return: 0 <= r, and r <= len(p) for slice parameters p.  They are returned as constructors of
 // the corresponding fact at a call site (a = the atom naming the result there).
-func resultFacts(g *ssa.Function) []func(fi *funcInfo, a string, call *ssa.Call) Lin {
-	if r, ok := resultFactCache[g]; ok {
+func resultFacts(g *ssa.Function, idx int) []func(fi *funcInfo, a string, call *ssa.Call) Lin {
+	key := resKey{g, idx}
+	if r, ok := resultFactCache[key]; ok {
 		return r
 	}
-	if resultFactBusy[g] || g == nil || len(g.Blocks) == 0 || !inMod(g) {
+	if resultFactBusy[key] || g == nil || len(g.Blocks) == 0 || !inMod(g) {
 		return nil
 	}
 	res := g.Signature.Results()
-	if res.Len() == 0 {
+	if res.Len() <= idx {
 		return nil
 	}
-	if _, _, isInt := isIntType(res.At(0).Type()); !isInt {
+	if _, _, isInt := isIntType(res.At(idx).Type()); !isInt {
 		return nil
 	}
-	resultFactBusy[g] = true
-	defer delete(resultFactBusy, g)
+	resultFactBusy[key] = true
+	defer delete(resultFactBusy, key)
 	gfi := newFuncInfo(g)
 	type cand struct {
 		holds func(t Lin) Lin
@@ -201,7 +222,7 @@ func resultFacts(g *ssa.Function) []func(fi *funcInfo, a string, call *ssa.Call)
 		ok := true
 		n := 0
 		for _, r := range returns(g) {
-			for _, v := range retValues(r, 0) {
+			for _, v := range retValues(r, idx) {
 				n++
 				t := gfi.term(v)
 				if !gfi.prove([]Lin{cd.holds(t)}, gfi.factsAt(r.Block(), r), 1) {
@@ -213,7 +234,7 @@ func resultFacts(g *ssa.Function) []func(fi *funcInfo, a string, call *ssa.Call)
 			out = append(out, cd.make)
 		}
 	}
-	resultFactCache[g] = out
+	resultFactCache[key] = out
 	return out
 }
 
